@@ -699,6 +699,11 @@ func (g *Gen) addrComps(addr ssa.Value, comps map[string]bool, locals map[*ssa.A
 			locals[root] = true
 			return
 		}
+		if ia, ok := a.X.(*ssa.IndexAddr); ok {
+			// a field of a slice/array element lives in the element heap
+			g.addrComps(ia, comps, locals)
+			return
+		}
 		pt := a.X.Type().Underlying().(*types.Pointer).Elem()
 		st := pt.Underlying().(*types.Struct)
 		comps[g.m.compField(g.m.sortOf(pt), fieldName(st, a.Field), g.m.sortOf(st.Field(a.Field).Type()))] = true
